@@ -76,6 +76,36 @@ void picture_case(const Pic& p, Stats& st) {
 	if (p.h >= 64 && rb) st.nt(fnv1a(p.rows.data(), p.rows.size(), fnv1a(p.pal.data(), 1024)));
 }
 
+// A tileset picture whose standard-bitmap storage has a PARTIAL colour table (k < 256 used colours) is a valid tileset picture too: the
+// loader accepts it with a k-entry palette.  Saving it in the custom format must still give bytes of the described shape (the palette
+// section is always 256 entries = 1024 bytes; what the unused entries hold is not prescribed) that load back to the same picture.
+void partial_palette_case(const Pic& p, unsigned k, bool bottomUp, Stats& st) {
+	refgfx::LBmp L; L.depth = 8; L.width = 32; L.height = bottomUp ? int32_t(p.h) : -int32_t(p.h); L.usedColors = k;
+	for (unsigned i = 0; i < k; ++i) L.palette.push_back({p.pal[i][0], p.pal[i][1], p.pal[i][2], p.pal[i][3]});
+	std::vector<uint8_t> rows = p.rows; for (auto& b : rows) b = uint8_t(b % k);        // every pixel names an existing colour
+	L.pixels = rows; if (bottomUp) for (uint32_t y = 0; y < p.h; ++y) memcpy(&L.pixels[size_t(y) * 32], &rows[size_t(p.h - 1 - y) * 32], 32);
+	BitmapFile src; std::string what;
+	Out o = guarded([&] { src = load(refgfx::encode_bmp(L)); }, &what);
+	V_CHECK(o == Out::Ok, "tileset stored as a standard bitmap with " << k << " used colours refused: " << what);
+	V_CHECK(src.palette.size() >= k && logical_rows(src) == rows, "standard bitmap with a partial colour table loaded with other rows or fewer colours");
+	for (unsigned i = 0; i < k; ++i) V_CHECK(src.palette[i].red == p.pal[i][0] && src.palette[i].green == p.pal[i][1] && src.palette[i].blue == p.pal[i][2] && src.palette[i].alpha == p.pal[i][3], "colour " << i << " of the partial table differs after load");
+	std::vector<uint8_t> cb;
+	o = guarded([&] { cb = custom_bytes(src); }, &what);
+	V_CHECK(o == Out::Ok, "WriteCustomTileset refused a valid tileset picture with " << src.palette.size() << " palette entries: " << what);
+	size_t want = refgfx::encode_tileset(p.h, std::vector<std::array<uint8_t, 4>>(256), rows).size();   // every section of the described format, 256-entry palette
+	V_CHECK(cb.size() == want, "custom tileset written from a picture with " << src.palette.size() << " palette entries has " << cb.size() << " bytes; the format's sections (256-entry palette, " << p.h << " rows) add up to " << want);
+	std::vector<std::array<uint8_t, 4>> pal256(256);
+	for (unsigned i = 0; i < 256; ++i) { if (i < k) pal256[i] = p.pal[i]; else { const uint8_t* e = &cb[64 + 4 * size_t(i)]; pal256[i] = {e[2], e[1], e[0], e[3]}; } }   // unused entries: whatever was written
+	std::vector<uint8_t> ref = refgfx::encode_tileset(p.h, pal256, rows);
+	if (cb != ref) { size_t at = 0; while (at < cb.size() && cb[at] == ref[at]) ++at; V_CHECK(false, "custom tileset bytes of a partial-palette picture differ from the independent description at offset " << at); }
+	BitmapFile back; o = guarded([&] { back = load(cb); }, &what);
+	V_CHECK(o == Out::Ok, "custom tileset written from a picture with " << k << " colours cannot be loaded back: " << what);
+	V_CHECK(back.AbsoluteHeight() == p.h && logical_rows(back) == rows, "partial-palette picture does not come back with the same rows");
+	V_CHECK(back.palette.size() >= k, "partial-palette picture comes back with " << back.palette.size() << " colours");
+	for (unsigned i = 0; i < k; ++i) V_CHECK(back.palette[i].red == p.pal[i][0] && back.palette[i].green == p.pal[i][1] && back.palette[i].blue == p.pal[i][2] && back.palette[i].alpha == p.pal[i][3], "colour " << i << " differs after the custom-format round trip of a partial-palette picture");
+	st.cls("picture:partial_colour_table"); st.nt(hmix(fnv1a(rows.data(), rows.size()), k * 2 + bottomUp) ^ 0xAC);
+}
+
 void signature_case(const std::vector<uint8_t>& pre, const std::vector<uint8_t>& sig, const std::vector<uint8_t>& post, Stats& st) {
 	std::vector<uint8_t> v = pre; v.insert(v.end(), sig.begin(), sig.end()); v.insert(v.end(), post.begin(), post.end());
 	uint8_t* heap = static_cast<uint8_t*>(malloc(v.size() ? v.size() : 1)); struct F { uint8_t* p; ~F() { free(p); } } g{heap};
@@ -142,7 +172,8 @@ Pic gen_pic(Tape& t) {
 } // namespace
 
 void run_case(Tape& t, Stats& st) {
-	switch (t.below(6)) {
+	switch (t.below(7)) {
+	case 6: { Pic p = gen_pic(t); if (p.h > 96) { p.h = 96; p.rows.resize(96 * 32); } unsigned k = t.flag() ? 1 + unsigned(t.below(255)) : t.pick<unsigned>({1, 2, 16, 128, 254, 255}); partial_palette_case(p, k, t.flag(), st); break; }
 	case 0: { auto pre = t.bytes(t.below(9)); std::vector<uint8_t> sig = t.pick<std::vector<uint8_t>>({{'P', 'B', 'M', 'P'}, {'P', 'B', 'M', 'Q'}, {'p', 'B', 'M', 'P'}, {'B', 'M', 0, 0}, {'P', 'B', 'M'}, {'Q', 'B', 'M', 'P'}, {'P', 'B', 'M', 'P' ^ 0x80}});
 		if (t.below(3) == 0) { sig = t.bytes(4); } if (t.below(4) == 0 && sig.size() == 4) sig[t.below(4)] ^= uint8_t(1u << t.below(8));
 		signature_case(pre, sig, t.bytes(t.below(6)), st); break; }
@@ -164,6 +195,7 @@ void run_sweep(Stats& st) {
 	// every validated header field x boundary values
 	{ Tape t(tp); Pic p = gen_pic(t); p.h = 64; p.rows.assign(64 * 32, 0x21);
 	  for (size_t f : refgfx::tileset_fields()) for (uint32_t val : {0u, 1u, 2u, 4u, 8u, 16u, 31u, 32u, 33u, 64u, 96u, 1024u, 1048u, 2048u, 0x14u, 0x7FFFFFE0u, 0x80000000u, 0xFFFFFFE0u, 0xFFFFFFFFu, 0x10008u}) { if (!sw("perturb", f, val)) continue; perturbed_custom(p, f, val, st); } }
+	for (unsigned k : {1u, 2u, 16u, 255u}) for (uint32_t tiles : {0u, 1u, 2u}) for (unsigned bu = 0; bu < 2; ++bu) { if (!sw("partial_palette", k, tiles, bu)) continue; Tape t(tp); Pic p = gen_pic(t); p.h = 32 * tiles; p.rows.assign(size_t(p.h) * 32, 0); for (size_t i = 0; i < p.rows.size(); ++i) p.rows[i] = uint8_t(i * 5 + k); partial_palette_case(p, k, bu, st); }
 	for (unsigned kind = 0; kind < 4; ++kind) for (uint64_t a : {uint64_t(0), uint64_t(31), uint64_t(33), uint64_t(0x1FF)}) if (sw("violating", kind, a)) violating_case(kind, a, st);
 	for (uint64_t a = 0; a < 64; ++a) if (sw("violating_pair", a)) violating_case(4, a, st);
 	for (uint64_t a = 0; a < 4096; a += 5) if (sw("violating_triple", a)) violating_case(5, a * 37, st);
